@@ -33,7 +33,7 @@ void run(const E& e, const char* pat, const std::vector<std::string>& strs, FILE
     }
     for (const auto& s : strs)
     {
-        for (int kind = 0; kind < 3; ++kind)
+        for (int kind = 0; kind < 4; ++kind)
         {
             auto& L = vh::tl_log;
             L.reset();
@@ -43,7 +43,8 @@ void run(const E& e, const char* pat, const std::vector<std::string>& strs, FILE
             {
                 if (kind == 0) { vh::checked_buffer b(s, 0); res = e.match(b, cs); }
                 else if (kind == 1) { buffers::string_buffer b{std::string(s)}; res = e.match(b, cs); }
-                else { buffers::string_view_buffer b{std::string_view(s)}; res = e.match(b); }
+                else if (kind == 2) { buffers::string_view_buffer b{std::string_view(s)}; res = e.match(b); }
+                else { vh::checked_buffer b(s, 0); res = e.match(match_options{}.set_verbose(true), b, cs); }      // the long overload, verbose
             }
             catch (const std::exception& ex) { threw = ex.what(); }
             std::string o = "{\"pattern\":"; vh::jstr(o, pat);
